@@ -80,7 +80,10 @@ struct Step {
 
 /// Drive the real SaseEngine over `stream`; returns one Step per event (irrelevant event types are
 /// not routed to a sequence stream by the engine and are skipped here as well, as the spec does).
-fn run_api(prog: &J, stream: &[J]) -> Vec<Step> {
+fn run_api(prog: &J, stream: &[J]) -> Vec<Step> { run_api_r(prog, stream, &[]) }
+
+/// `restore_after`: indices after whose event the engine is replaced by a fresh one restored from its checkpoint
+fn run_api_r(prog: &J, stream: &[J], restore_after: &[usize]) -> Vec<Step> {
     let steps = prog["steps"].as_array().unwrap();
     let nsteps = steps.len();
     let kstep = steps.iter().position(|s| s["all"].as_bool().unwrap());
@@ -155,6 +158,11 @@ fn run_api(prog: &J, stream: &[J]) -> Vec<Step> {
         }
         let st = eng.extended_stats();
         out.push(Step { matches, nruns, maxkl, dropped: st.total_runs_dropped, evicted: st.total_runs_evicted, panic: None });
+        if restore_after.contains(&i) {
+            let mut fresh = build(prog);
+            fresh.restore(&cp);
+            eng = fresh;
+        }
     }
     out
 }
@@ -380,9 +388,11 @@ pub fn record(args: &[String]) {
                 json!({"type": t, "key": *rng.pick(&keys), "x": rng.below(3)})
             })
             .collect();
-        let real = run_api(&prog, &stream);
+        // optional 5th argument "restore": checkpoint + restore into a fresh engine after random events (bounds must keep holding)
+        let restores: Vec<usize> = if args.get(4).map(|s| s.as_str()) == Some("restore") { (0..len).filter(|_| rng.chance(1, 3)).collect() } else { vec![] };
+        let real = run_api_r(&prog, &stream, &restores);
         let any_out = real.iter().any(|s| !s.matches.is_empty());
-        rep.case(&json!({"prog": prog, "len": len}), any_out);
+        rep.case(&json!({"prog": prog, "len": len, "restores": restores}), any_out);
         traces.extend(trace_block(&prog, &stream, &real));
     }
     write_ndjson(&args[1], &traces);
